@@ -8,6 +8,8 @@ import LlgoVerif.Model.Cache
     `rel G=… P=… P=…`                    → `ok <hexid>!<hash of the relevant inputs> …`
     `build <force> <cacheOn> G=… P=… …`  → `ok <hexid>:<hit|miss>:<fresh|stale>:<hash of the relevant inputs>:<fingerprint> …`   (model's `buildProg` on the state)
     `clean`                              → `ok`
+    `meta <rt> <py> <link args> [<archive bytes>]` → `ok hit=true <rt> <py> <link args> [<archive bytes>]`   (`loadArtifact (storeArtifact a)`)
+    `abitypes <hexname>:<0|1>,…`         → `ok <names in emission order>`   (`abiTypeNames`; the list is the symbol table as `range` delivered it + the filter's verdict)
     Strings are hex of bytes (`-` = empty), lists are `,`-separated (`.` = empty).  See harness/c13/main.go. -/
 open LlgoVerif LlgoVerif.Util LlgoVerif.Cache
 
@@ -169,6 +171,29 @@ def handle (st : St) (line : String) : St × String :=
       ({ st with cache := r.1 }, "ok " ++ " ".intercalate r.2)
     | none => (st, "bad-op")
   | ["clean"] => ({ st with cache := [] }, "ok")
+  | "meta" :: rt :: py :: args :: rest =>
+    let ar : Option (Option Bytes) := match rest with
+      | [] => some none
+      | [a] => (unhexB a).map some
+      | _ => none
+    match unlist args, ar with
+    | some l, some ar =>
+      let a : Artifact Bytes := { archive := ar.getD [], md := { linkArgs := l, needRt := rt == "1", needPyInit := py == "1" } }
+      let r := loadArtifact (storeArtifact a)
+      let bit := fun (b : Bool) => if b then "1" else "0"
+      (st, "ok hit=true " ++ bit r.md.needRt ++ " " ++ bit r.md.needPyInit ++ " " ++ hexList r.md.linkArgs
+        ++ (if ar.isSome then " " ++ (if r.archive.isEmpty then "-" else hexB r.archive) else ""))
+    | _, _ => (st, "bad-op")
+  | ["abitypes", syms] =>
+    let parsed : Option (List (String × Bool)) :=
+      if syms = "." then some [] else (syms.splitOn ",").mapM fun t => match t.splitOn ":" with
+        | [h, b] => (unhexS h).map fun n => (n, b == "1")
+        | _ => none
+    match parsed with
+    | some l =>
+      let filter := fun n => match l.find? (·.1 == n) with | some x => x.2 | none => false
+      (st, "ok " ++ hexList (abiTypeNames filter (l.map fun x => (x.1, ""))))
+    | none => (st, "bad-op")
   | _ => (st, "bad-op")
 
 def main : IO Unit := lineLoopSt ({} : St) handle
